@@ -1,5 +1,5 @@
 use rusty_common::Positioned;
-use rusty_pc::and::KeepLeftCombiner;
+use rusty_pc::and::{IgnoringBothCombiner, KeepLeftCombiner};
 use rusty_pc::*;
 
 use crate::core::statement::statement_p;
@@ -71,7 +71,31 @@ fn find_exit_keyword_or_demand_statement_p(
     exit_keywords: &[Keyword],
     custom_err: Option<ParserError>,
 ) -> impl Parser<StringView, Output = StatementOrExitKeyword, Error = ParserError> {
-    find_exit_keyword_p(exit_keywords, custom_err).or(demand_statement_p())
+    end_of_block_ahead_p(exit_keywords.contains(&Keyword::End))
+        .or(find_exit_keyword_p(exit_keywords, custom_err))
+        .or(demand_statement_p())
+}
+
+/// `END` on its own is a statement. It ends a block only as the first word of
+/// `END IF`, `END SELECT`, `END SUB`, `END FUNCTION` (peeking).
+fn end_of_block_ahead_p(
+    end_is_exit_keyword: bool,
+) -> impl Parser<StringView, Output = StatementOrExitKeyword, Error = ParserError> {
+    keyword_ignoring(Keyword::End)
+        .and(whitespace_ignoring(), IgnoringBothCombiner)
+        .and(
+            keyword_of!(
+                Keyword::If,
+                Keyword::Select,
+                Keyword::Sub,
+                Keyword::Function,
+                Keyword::Type
+            ),
+            IgnoringBothCombiner,
+        )
+        .peek()
+        .filter(move |_| end_is_exit_keyword)
+        .map(|_| StatementOrExitKeyword::ExitKeyword)
 }
 
 fn find_exit_keyword_p(
@@ -86,7 +110,8 @@ fn find_exit_keyword_p(
         match opt_token {
             Some(token) => {
                 for exit_keyword in exit_keywords {
-                    if exit_keyword.matches_token(&token) {
+                    // END is looked at together with the word that follows it (see end_of_block_ahead_p)
+                    if *exit_keyword != Keyword::End && exit_keyword.matches_token(&token) {
                         return Ok(StatementOrExitKeyword::ExitKeyword);
                     }
                 }
